@@ -5,6 +5,7 @@
 #include "../ref/refparse.hpp"
 
 #include <functional>
+#include <sstream>
 
 namespace pc
 {
@@ -196,11 +197,103 @@ struct ParserCheck
         }
     }
 
+    // Incremental declaration: the first `k` items are declared, the parser is used once (parse and usage), then the
+    // remaining items are declared through group references the caller obtained *before* that first use.  The parse of
+    // `av` must agree with the reference for the complete declaration.
+    void run_incremental(const Decl& D, size_t k, const std::vector<std::string>& av, const Env& env, mc::Report& rep, long idx) const
+    {
+        auto r = refparse(D, av, env);
+        apply_env(D, env);
+        nitro::options::parser p;
+        std::map<std::string, nitro::options::group*> kept;
+        kept[""] = &p.group();
+        for (auto& it : D.items)
+            if (!it.group.empty() && !kept.count(it.group))
+                kept[it.group] = &p.group(it.group);
+        auto declare = [&](const Item& it) {
+            nitro::options::group& g = *kept[it.group];
+            if (it.kind == 'o')
+            {
+                auto& o = g.option(it.name);
+                if (!it.sh.empty())
+                    o.short_name(it.sh);
+                if (!it.env.empty())
+                    o.env(it.env);
+                if (it.has_def)
+                    o.default_value(it.def);
+                if (it.optional)
+                    o.optional();
+            }
+            else if (it.kind == 'm')
+            {
+                auto& o = g.multi_option(it.name);
+                if (!it.sh.empty())
+                    o.short_name(it.sh);
+                if (!it.env.empty())
+                    o.env(it.env);
+                if (it.has_def)
+                    o.default_value(it.mdef);
+                if (it.optional)
+                    o.optional();
+            }
+            else
+            {
+                auto& o = g.toggle(it.name);
+                if (!it.sh.empty())
+                    o.short_name(it.sh);
+                if (!it.env.empty())
+                    o.env(it.env);
+                if (it.tdef)
+                    o.default_value(it.tdef);
+                if (it.rev)
+                    o.allow_reverse();
+            }
+        };
+        for (size_t i = 0; i < k && i < D.items.size(); i++)
+            declare(D.items[i]);
+        p.accept_positionals(D.accepted);
+        p.greedy_postionals(D.greedy);
+        {
+            Decl part = D;
+            part.items.resize(std::min(k, D.items.size()));
+            run_on(p, part, {});
+            std::stringstream sink;
+            p.usage(sink);
+        }
+        for (size_t i = k; i < D.items.size(); i++)
+            declare(D.items[i]);
+        auto i = run_on(p, D, av);
+        rep.count("executions", 2);
+        rep.count("parses_after_incremental_declaration");
+        for (auto& d : compare(r, i))
+        {
+            if (!judged(d.clause))
+                continue;
+            std::string w = mc::J().s("decl", D.str()).raw("declaration", decl_json(D)).n("declared_before_first_use", static_cast<long long>(k)).l("argv", av).raw("env", env_json(env)).str();
+            rep.violation("incremental-declaration:" + d.clause, id + ":incremental-declaration:" + d.clause + ":" + class_seq(D, av), w,
+                          "first " + std::to_string(k) + " item(s) declared, parser used once (parse, usage), the rest declared through kept group references; parse(" +
+                              mc::jlist(av) + "): " + d.detail,
+                          idx);
+        }
+    }
+
     int replay(const std::string& path) const
     {
         {
             auto doc = js::load(path);
             const js::Value& w = doc.has("witness") ? doc.at("witness") : doc;
+            if (w.has("declared_before_first_use"))
+            {
+                Decl D = decl_from(w.at("declaration"));
+                mc::Report rep;
+                run_incremental(D, static_cast<size_t>(w.n("declared_before_first_use")), w.strings("argv"), env_from(w), rep, 0);
+                printf("replay %s (incremental declaration)\n", id.c_str());
+                for (auto& v : rep.violations)
+                    printf("  FAILED clause: %s\n    %s\n", v.second.clause.c_str(), v.second.detail.c_str());
+                if (rep.violations.empty())
+                    printf("  the parse agrees with the reference\n");
+                return rep.violations.empty() ? 0 : 1;
+            }
             if (w.has("previous_declaration"))
             {
                 Decl D = decl_from(w.at("declaration")), Dold = decl_from(w.at("previous_declaration"));
